@@ -24,7 +24,8 @@ from .check_client import answer_stimulus, correspond, rand_ac_status, rand_inst
 
 TICK = 1024
 MOMENTS = ["mid-handshake", "mid-handshake", "connect-backoff", "connecting", "after-init", "after-init", "after-init-idle",
-           "link-down-with-pending", "after-heartbeat-reset", "already-shut-down"]
+           "link-down-with-pending", "after-heartbeat-reset", "already-shut-down",
+           "during-heartbeat-reset", "during-fault-reset"]
 
 
 def request_log(rig, since_ticks: int, horizon: int):
@@ -98,6 +99,23 @@ def run(ck: common.Check, tier: str) -> None:
                     ac = rig.at.air_conditioners[0]
                     rig.start(ac.set_power(T.POWER_CTL[1]))
                     rig.start(ac.set_power(T.POWER_CTL[2]))
+                elif moment in ("during-heartbeat-reset", "during-fault-reset"):
+                    # shutdown() is called at the moment the client itself closes its transport to reset the link
+                    # (another task of the client is in the middle of the reset)
+                    started = []
+                    rig.net.on_client_close = lambda conn: started.append(rig.loop.create_task(rig.at.shutdown()))
+                    if moment == "during-heartbeat-reset":
+                        rig.console.silent_from = 0
+                        rig.advance(331 * TICK)
+                    else:
+                        cur = rig.net.current()
+                        if cur is not None:
+                            cur.transport.peer_bytes(bytes([0x13, 0x37] * 12))
+                        rig.pump()
+                        rig.advance(rng.choice([0, 1, TICK]))
+                    rig.net.on_client_close = None
+                    replay["shutdown_started_in_reset_window"] = bool(started)
+                    dist[f"at{gen}_{moment}_hit"] += int(bool(started))
                 elif moment == "already-shut-down":
                     rig.run(rig.at.shutdown(), max_ticks=20 * TICK)
                     rig.advance(rng.choice([0, TICK]))
